@@ -1048,7 +1048,8 @@ func Sum(m map[common.AddressBytes]*big.Int) *big.Int {
 func topRepoFrame(stack string) string {
 	lines := strings.Split(stack, "\n")
 	for i := 0; i+1 < len(lines); i++ {
-		if strings.Contains(lines[i+1], "/repo/") && !strings.HasPrefix(lines[i], "\t") {
+		// a frame of the repository under test, wherever it is checked out (/repo, or a scratch copy in calibration runs)
+		if strings.HasPrefix(lines[i], "github.com/dominant-strategies/go-quai/") && strings.HasPrefix(lines[i+1], "\t") {
 			fn := lines[i]
 			if k := strings.LastIndex(fn, "("); k > 0 {
 				fn = fn[:k]
